@@ -12,6 +12,7 @@ let () =
   | [_; "gen-txn"; seed; n; out] -> Gen_txn.run (int_of_string seed) (int_of_string n) out
   | [_; "cmp-cl"; hist; impl] -> Cmp_cl.run hist impl
   | [_; "gen-cl"; seed; n; out] -> Gen_cl.run (int_of_string seed) (int_of_string n) out
+  | [_; "gen-cl-ka"; seed; n; out] -> Gen_cl.run_ka (int_of_string seed) (int_of_string n) out
   | [_; "run-cl"; hist; out] -> Cl_io.run_model hist out
   | [_; "ext-cl"; hist; res; out] -> Ext.ext_cl hist res out
   | [_; "ext-gw"; hist; res; out] -> Ext.ext_gw hist res out
